@@ -80,6 +80,21 @@ def shuffle {α} : Nat → List α → Nat × List α
 termination_by _ l => l.length
 decreasing_by all_goals simp_all <;> omega
 
+/-- swap of positions `i` and `j` as the Python statement `l[i], l[j] = l[j], l[i]` -/
+def swapAt {α} (l : List α) (i j : Nat) : List α :=
+  match l[i]?, l[j]? with
+  | some a, some b => (l.set i b).set j a
+  | _, _ => l
+
+/-- the loop of `CobaRandom.shuffle` as written: for i = 0 … n-2, j = i + floor((n-i)*u), swap -/
+def shuffleLoopGo {α} : Nat → List α → Nat → Nat → Nat × List α
+  | s, l, _, 0 => (s, l)
+  | s, l, i, k+1 =>
+    let j := i + scaled s (l.length - i)
+    shuffleLoopGo (next s) (swapAt l i j) (i+1) k
+
+def shuffleLoop {α} (s : Nat) (l : List α) : Nat × List α := shuffleLoopGo s l 0 (l.length - 1)
+
 /-- running sums, `itertools.accumulate` -/
 def accumulate : Rat → List Rat → List Rat
   | _, [] => []
@@ -197,7 +212,7 @@ def step (g : Gen) : Op → Gen × Out
   | .randoms n lo hi => let (s', xs) := randoms g.s n lo hi; ({ g with s := s' }, .rats xs)
   | .randint a b => let (s', x) := randint g.s a b; ({ g with s := s' }, .int x)
   | .randints n a b => let (s', xs) := randints g.s n a b; ({ g with s := s' }, .ints xs)
-  | .shuffle n => let (s', p) := shuffle g.s (List.range n); ({ g with s := s' }, .perm p)
+  | .shuffle n => let (s', p) := shuffleLoop g.s (List.range n); ({ g with s := s' }, .perm p)
   | .choice n w =>
     match choice g.s n w with
     | .ok (s', i) => ({ g with s := s' }, .idx i)
